@@ -538,10 +538,11 @@ func TestC11(t *testing.T) {
 		{Key: "source", Loc: lrg(0, 8), Quals: [][]string{{"label", "x0"}}},
 		{Key: "gene", Loc: ljn(lrg(1, 3), lrg(5, 7)), Quals: [][]string{{"label", "x1"}, {"note", "n"}}},
 		{Key: "CDS", Loc: lco(lrg(2, 6)), Quals: [][]string{{"label", "x2"}, {"codon_start", "1"}, {"transl_table", "11"}}},
-		{Key: "CDS", Loc: lrg(1, 8), Quals: [][]string{{"label", "x4"}, {"codon_start", "2"}, {"translation", "MK"}}},
+		{Key: "CDS", Loc: lrg(1, 8), Quals: [][]string{{"label", "x4"}, {"codon_start", "2"}, {"translation", "MK"}, {"transl_except", "(pos:5..7,aa:Trp)", "(pos:complement(2..4),aa:Sec)"}}},
+		{Key: "tRNA", Loc: lrg(0, 8), Quals: [][]string{{"label", "x5"}, {"anticodon", "(pos:4..6,aa:Phe,seq:aaa)"}, {"note", "pos:1..2"}, {"rpt_unit_range", "2..3"}, {"citation", "[1]"}}},
 		{Key: "variation", Loc: lpt(4), Quals: [][]string{{"label", "x3"}}},
 	}
-	guest := []Feat{{Key: "gene", Loc: lrg(0, 2), Quals: [][]string{{"label", "y0"}}}}
+	guest := []Feat{{Key: "gene", Loc: lrg(0, 2), Quals: [][]string{{"label", "y0"}}}, {Key: "tRNA", Loc: lrg(0, 3), Quals: [][]string{{"label", "y1"}, {"anticodon", "(pos:1..3,aa:Met,seq:cat)"}}}}
 	for _, name := range c11OpNames {
 		for _, shape := range []string{"exact", "spare", "middle"} {
 			for _, ts := range []bool{false, true} {
